@@ -70,6 +70,10 @@ NextG(g) == /\ ~fin /\ Len(hist) < MaxHist
 Spec == Init /\ [][NextG(TRUE)]_vars
 GenSpec == Init /\ [][NextG(FALSE)]_vars
 
+(* random long histories (tlc -simulate): only advancing steps, known deviations kept out *)
+SimNext == ~fin /\ Len(hist) < MaxHist /\ \E op \in Ops : Do(op, TRUE) /\ fin' = FALSE /\ v'.size <= MaxLen
+SimSpec == Init /\ [][SimNext]_vars
+
 (* ---- properties ---------------------------------------------------------------------------- *)
 StepRefines ==
   LET op == hist'[Len(hist')]
